@@ -64,10 +64,13 @@ pub struct MacroCase {
     pub ops: Vec<MOp>,
 }
 
-const STRS: [&str; 5] = ["", "a", "b|c", "\"q\"", "x\\y"];
+/// Argument pool: keys share long prefixes and differ late, contain the separator, quotes
+/// and backslashes (a lookup or store under a truncated / mangled key collides).
+const STRS: [&str; 9] = ["", "aaaaaa", "aaaaaab", "b|c", "b|", "\"q\"", "x\\y", "aaaaaa|", "aaaaaabb"];
 
 pub fn key_args(k: u8) -> Vec<ArgVal> {
-    vec![ArgVal::U(k as u128), ArgVal::Str(STRS[(k % 5) as usize].to_string())]
+    let a = [0u128, 0, 0, 1, 1, 10, 10, 10, 1][(k % 9) as usize];
+    vec![ArgVal::U(a), ArgVal::Str(STRS[(k % 9) as usize].to_string())]
 }
 
 fn simple_sig(d: &FnDesc) -> bool {
